@@ -180,7 +180,7 @@ func checkC11(c *Ctx) {
 			r.Undecided("C11/INVENTORY", cons, site, "file-system mutation os.%s on path class %q is not in the confirmed inventory", e.op, cls)
 		}
 	}
-	r.Floor("C11/INVENTORY", "fs-mutating calls in pkg/storage/file", nEff, 10)
+	r.Floor("C11/INVENTORY", "fs-mutating calls in pkg/storage/file", nEff, 1)
 
 	// D1 positive part: rename protocol
 	var renames []fsEffect
